@@ -489,7 +489,7 @@ func (ex *Exec) builtinAppend(st *State, fr *Frame, cc *ssa.CallCommon, args []V
 		if (s.obj == 0 || (s.len.isConst && s.len.v == 0)) && isInt {
 			rope := ex.ropeOf(st, x)
 			id := st.alloc(nil, StructV{f: []Value{rope}})
-			fr.env[ins] = RopeRef{buf: PtrV{obj: id}, n: -1}
+			fr.env[ins] = RopeRef{buf: PtrV{obj: id}, n: -1, snap: rope}
 			return true
 		}
 		b := ex.stringToBytes(st, ex.ropeOf(st, x)).(SliceV)
